@@ -204,7 +204,7 @@ func chromOne(gi, n int, edges [][2]int64, desc string, calls, heur int, cliques
 		}
 	}
 	add := func(alg string, exact bool, k int, c map[int64]int, err error, im *idmap) {
-		r.ev.Calls = append(r.ev.Calls, colObs{Alg: alg, K: k, Col: colPairs(c, im), Err: errText(err), Exact: exact && err == nil})
+		r.ev.Calls = append(r.ev.Calls, colObs{Alg: alg, K: k, Col: colPairs(c, im), Err: errText(err), Exact: exact && err == nil}.withSets(c, im))
 	}
 	for c := 0; c < calls; c++ {
 		g, im, _ := chromBuild(n, edges, seed, gi, c)
